@@ -765,6 +765,22 @@ func (e *ConditionalExpr) Value(ctx *hcl.EvalContext) (cty.Value, hcl.Diagnostic
 		resultType, convs = convert.UnifyUnsafe([]cty.Type{trueResult.Type(), falseResult.Type()})
 	}
 
+	if resultType == cty.NilType && (trueResult.ContainsMarked() || falseResult.ContainsMarked()) {
+		// The detailed description of the mismatch names object attributes,
+		// which for a marked value may be content the calling application
+		// considers sensitive, so we only give the generic message.
+		return cty.DynamicVal, hcl.Diagnostics{
+			{
+				Severity:    hcl.DiagError,
+				Summary:     "Inconsistent conditional result types",
+				Detail:      "The true and false result expressions must have consistent types.",
+				Subject:     hcl.RangeBetween(e.TrueResult.Range(), e.FalseResult.Range()).Ptr(),
+				Context:     &e.SrcRange,
+				Expression:  e,
+				EvalContext: ctx,
+			},
+		}
+	}
 	if resultType == cty.NilType {
 		return cty.DynamicVal, hcl.Diagnostics{
 			{
